@@ -63,33 +63,47 @@ def _dedupe(prints):
     return res
 
 
-def _validate(ctx, rows, trace_path):
-    res = run_tlc(ctx, "UploadTrace", "UploadTrace.cfg", files=[trace_path], workers=1, timeout=900, heap="8g")
-    if res.error or not res.finished:
-        raise Infra("trace validation failed to run:\n" + res.out[-3000:])
-    done = [p for p in res.prints if "done" in p]
-    if not done or done[-1]["done"] != len(rows):
-        raise Infra("trace not fully consumed by TLC: %s of %d\n%s" % (done, len(rows), res.out[-2000:]))
-    fails, seen = [], set()
-    for p in res.prints:
-        if "fail" in p:
-            k = (p["row"], p["fail"])
-            if k not in seen:
-                seen.add(k)
-                fails.append(p)
+def _validate(ctx, rows, trace_path=None, chunk=6000):
+    """TLC (UploadTrace.tla) over the recorded rows, in chunks cut at world boundaries (bounded memory).
+    Returns the failing (row number, predicate) records with row numbers relative to `rows`."""
+    fails, seen, start = [], set(), 0
+    while start < len(rows):
+        end = min(len(rows), start + chunk)
+        while end < len(rows) and rows[end]["n"] != 0:
+            end += 1
+        part = rows[start:end]
+        sub = ctx.sub("trace%d_%d" % (ctx.n_tlc, start))
+        path = os.path.join(sub, "upload_trace.ndjson")
+        write_ndjson(path, part)
+        res = run_tlc(ctx, "UploadTrace", "UploadTrace.cfg", files=[path], workers=1, timeout=900, heap="3g")
+        if res.error or not res.finished:
+            raise Infra("trace validation failed to run (rc=%s):\n%s" % (res.rc, res.out[-3000:]))
+        done = [p for p in res.prints if "done" in p]
+        if not done or done[-1]["done"] != len(part):
+            raise Infra("trace not fully consumed by TLC: %s of %d\n%s" % (done, len(part), res.out[-2000:]))
+        for p in res.prints:
+            if "fail" in p:
+                p["row"] += start
+                k = (p["row"], p["fail"])
+                if k not in seen:
+                    seen.add(k)
+                    fails.append(p)
+        os.remove(path)
+        start = end
     return fails
 
 
 def _selftest(ctx, rows):
-    """The binding must bind: corrupt single fields of recorded rows and require TLC to name the predicate."""
-    sub = ctx.sub("selftest")
-    path = os.path.join(sub, "upload_trace.ndjson")
+    """The binding must bind: corrupt single fields of recorded rows (rows that TLC accepted) and require TLC
+    to name the predicate."""
     picked, want = [], []
     acc = [r for r in rows if r["op"] == "upload" and r["status"] == 200 and r["pre"]["inside"]]
     rej = [r for r in rows if r["op"] == "upload" and r["status"] != 200]
     dl = [r for r in rows if r["op"] == "download" and r["reads"]]
     pr = [r for r in rows if r["op"] == "pair" and r["same"] and (r["status"] == 200) != (r["status2"] == 200)]
     if len(acc) < 3 or not rej or not dl or not pr:
+        if ctx.violations:
+            return 0        # a tree that breaks the property may leave no accepted material; the verdict stands
         raise Infra("selftest: trace has no material (accepted %d rejected %d served %d pairs %d)" % (
             len(acc), len(rej), len(dl), len(pr)))
 
@@ -122,8 +136,7 @@ def _selftest(ctx, rows):
     again["queued"] = ["zzzz-second-copy"]
     picked.append(again)
     want.append((len(picked), "ExistingRejected"))
-    write_ndjson(path, picked)
-    fails = _validate(ctx, picked, path)
+    fails = _validate(ctx, picked)
     got = {(f["row"], f["fail"]) for f in fails}
     missing = [w for w in want if w not in got]
     if missing:
@@ -145,6 +158,9 @@ def run(ctx):
     racy = run_tlc(ctx, "UploadMC", "UploadMC_racy.cfg", workers=1, timeout=300)
     if not racy.invariant_violated:
         raise Infra("check-then-rename variant of the model does not violate any property:\n" + racy.out[-1500:])
+
+    # three uploaders: at most one success per name under every interleaving (model only)
+    mc3 = tlc_must_pass(run_tlc(ctx, "UploadMC", "UploadMC3.cfg", workers=4, timeout=600), "UploadMC3")
 
     # (A) request sequences from TLC: exhaustive sweep of abstract requests + simulated sequences
     sweep = tlc_must_pass(run_tlc(ctx, "UploadGen", "UploadGen_sweep.cfg", workers=1, timeout=300), "UploadGen sweep")
@@ -189,7 +205,7 @@ def run(ctx):
         raise Infra("trace incomplete: %d rows, harness wrote %d" % (len(rows), summ["rows"]))
 
     # (B) TLC evaluates the property predicates on every recorded row
-    fails = _validate(ctx, rows, trace)
+    fails = _validate(ctx, rows)
     for f in fails:
         r = rows[f["row"] - 1]
         sig = "%s/%s#%d" % (r["op"], r["cls"], r["var"]) if r["op"] != "pair" else "pair/%s+%s" % (r["cls"], r["cls2"])
@@ -209,7 +225,8 @@ def run(ctx):
                           if r["op"] == "pair" else "",
                           r["created"], r["outside"], r["events"], r["queued"]), rep)
 
-    nself = _selftest(ctx, rows)
+    bad = {f["row"] for f in fails}
+    nself = _selftest(ctx, [r for i, r in enumerate(rows) if (i + 1) not in bad])
 
     st = summ["stats"]
     acc = st.get("upload.accepted", 0)
@@ -221,8 +238,14 @@ def run(ctx):
         raise Infra("vacuous run: accepted uploads %d, served downloads %d, pairs with one winner %d" % (
             acc, served, one_winner))
     worlds = len({r["w"] for r in rows})
+    by_class = {}
+    for k, v in sorted(st.items()):
+        parts = k.split(".")
+        if len(parts) == 3 and parts[0] in ("upload", "download"):
+            by_class.setdefault(parts[0] + "/" + parts[1], {})[parts[2]] = v
     cov = {
-        "states": mc.distinct, "transitions": mc.generated,
+        "states": mc.distinct + mc3.distinct, "transitions": mc.generated + mc3.generated,
+        "states_two_uploaders": mc.distinct, "states_three_uploaders": mc3.distinct,
         "model_terminal_interleavings": len(terminals), "schedules_replayable": len(scheds),
         "schedules_not_replayable": skipped, "schedules_executed": sched_run,
         "racy_model_violates": racy.invariant_violated,
@@ -239,6 +262,7 @@ def run(ctx):
         "uploads_accepted": acc, "downloads_served_from_inside": served, "pair_rows": len(pairs),
         "pairs_with_exactly_one_winner": one_winner,
         "pair_outcomes": {k: v for k, v in st.items() if k.startswith("pair.") and k != "pair.rows"},
+        "status_by_class": by_class,
         "selftest_corruptions_rejected": nself,
         "nonconformance": len(ctx.nonconformance),
         "harness_seconds": round(summ["seconds"], 1),
